@@ -197,6 +197,21 @@ def closure_of(F, parent_ret, suffix):
     return cl[0], F.need(cl[0][1])
 
 
+def _map_closure(F, it, rt, suffix):
+    """the per-feature closure: the one handed to the `map` over the feature indices (a further closure it merely calls — a
+    cost function passed through a generic helper — is reached by reducing the call)"""
+    if it is not None and it[0] == "call" and itm(it[1], "map") and len(it[2]) == 2 and it[2][1][0] == "closure" and it[2][1][1] in F.bodies:
+        return it[2][1], F.bodies[it[2][1][1]]
+    return closure_of(F, rt, suffix)
+
+
+def _whole_value(cb):
+    """the closure's value when it is not written as Ok(..) on a path of its own: `f(name, idx).map(|c| (name, c))`"""
+    rt = nosite(Terms(cb).return_term())
+    alts = [a for a in (rt[1] if rt[0] == "phi" else (rt,)) if not is_err_value(a) and result_variant(a) != "Err"]
+    return alts if len(alts) == 1 else []
+
+
 def R4_formula(ctx, rid="C07.R4"):
     """C07.R4 sum aggregation is the documented formula"""
     F = ctx.F
@@ -206,8 +221,8 @@ def R4_formula(ctx, rid="C07.R4"):
     rt = nosite(deep_strip(Terms(b).return_term()))
     ok = rt[0] == "call" and rt[1].endswith("CostAggregation::agg_iter") and rt[2][0] == ("arg", 5)
     ctx.check(ok, "vehicle:aggregated", "vehicle costs are not aggregated with cost_aggregation.agg_iter over all features: %s" % short(rt)[:160], b.where())
-    cl, cb = closure_of(F, rt, "calculate_vehicle_costs")
     it = rt[2][1] if ok else None
+    cl, cb = _map_closure(F, it, rt, "calculate_vehicle_costs")
     ctx.check(ok and it[0] == "call" and itm(it[1], "map") and it[2][0] == ("call", "std::slice::<impl [T]>::iter", (("arg", 2),)), "vehicle:all-features", "the map does not range over all feature indices", b.where())
     # the closure's value in the terms of calculate_vehicle_costs (captures replaced by what they capture, the feature by 'elem')
     caps = cl[2]
@@ -217,9 +232,10 @@ def R4_formula(ctx, rid="C07.R4"):
     get = lambda base: ("call", "std::slice::<impl [T]>::get", (base, idx))
     PREV, NEXT, RATES, W = ("field", ("arg", 1), "0"), ("field", ("arg", 1), "1"), ("arg", 4), ("arg", 3)
     rows = ok_rows(cb)
-    ctx.check(len(rows) == 1, "vehicle:closure-paths", "expected one Ok path in the per-feature closure, found %d" % len(rows), cb.where())
-    if rows:
-        v = up(agg_payload(rows[0].ret))
+    vals_ = [agg_payload(r_.ret) for r_ in rows] or _whole_value(cb)
+    ctx.check(len(vals_) == 1, "vehicle:closure-paths", "expected one Ok path in the per-feature closure, found %d" % len(vals_), cb.where())
+    if vals_:
+        v = proj_simplify(clean(norm_adaptors(F, nosite(substitute_closure(vals_[0], caps, (ELEM,))))))
         used = {q for q in subterms(v) if q in (PREV, NEXT, RATES, W)}
         ctx.check(used == {PREV, NEXT, RATES, W}, "vehicle:captures", "the per-feature cost is not computed from (prev_state, next_state, rates, weights): uses %s" % sorted(short(q) for q in used), b.where())
         okshape = v[0] == "tuple" and len(v[1]) == 2
@@ -244,16 +260,16 @@ def R4_formula(ctx, rid="C07.R4"):
         rt = nosite(deep_strip(Terms(b).return_term()))
         ok = rt[0] == "call" and rt[1].endswith("CostAggregation::agg_iter") and rt[2][0] == ("arg", nargs)
         ctx.check(ok, fn + ":aggregated", "not aggregated with cost_aggregation.agg_iter: %s" % short(rt)[:160], b.where())
-        cl, cb = closure_of(F, rt, fn)
+        cl, cb = _map_closure(F, rt[2][1] if ok else None, rt, fn)
         caps = cl[2]
         ELEM = ("elem",)
-        up = lambda t, caps=caps: proj_simplify(clean(substitute_closure(t, caps, (ELEM,))))
+        up = lambda t, caps=caps: proj_simplify(clean(norm_adaptors(F, nosite(substitute_closure(t, caps, (ELEM,))))))
         idx = ("field", ELEM, "1")
         get = lambda base: ("call", "std::slice::<impl [T]>::get", (base, idx))
         rows = ok_rows(cb)
         found = False
-        for r in rows:
-            v = up(agg_payload(r.ret))
+        for pv_ in ([agg_payload(r_.ret) for r_ in rows] or _whole_value(cb)):
+            v = up(pv_)
             if v[0] != "tuple":
                 continue
             cost = v[1][1]
